@@ -108,13 +108,13 @@ theorem findBreakpointsFrom_spec {C} (zero : C) : ∀ (threads : List (List Nat)
 
 theorem sortByPosition_sorted {C} (bps : List (Breakpoint C)) :
     (sortByPosition bps).Pairwise (fun a b => a.position ≤ b.position) := by
-  have := List.pairwise_mergeSort (le := fun (a b : Breakpoint C) => decide (a.position ≤ b.position))
+  have := isort_sorted (fun (a b : Breakpoint C) => decide (a.position ≤ b.position))
     (by intro a b c h1 h2; simp only [decide_eq_true_eq] at *; omega)
-    (by intro a b; simp only [Bool.or_eq_true, decide_eq_true_eq]; omega) bps
+    (by intro a b; simp only [decide_eq_true_eq]; omega) bps
   exact this.imp (by intro a b h; simpa using h)
 
 theorem mem_sortByPosition {C} (bps : List (Breakpoint C)) (b : Breakpoint C) : b ∈ sortByPosition bps ↔ b ∈ bps :=
-  (List.mergeSort_perm _ _).mem_iff
+  (isort_perm _ _).mem_iff
 
 /-- invariant of the join loop on a list sorted by position: the accumulator (newest first) has strictly decreasing
 positions, all of them positions of the input, and none greater than what is still to come -/
@@ -228,8 +228,6 @@ theorem integrateBreakpoints_spec {C} (zero : C) (mul : C → C → C) (threads 
     exact hsnps s hs _ (List.getElem_mem hlt)
 
 /-! ## aggregate_results -/
-
-def totalCols {C} (rs : List (BlockBps C)) : Nat := (rs.map (·.ncols)).sum
 
 theorem aggregateBps_spec {C} (zero : C) (ploidy : Nat) (borders : List Nat) :
     ∀ (rs : List (BlockBps C)) (off : Nat),
